@@ -20,7 +20,7 @@ LABELS_NUM = ["1", "2", "3", "5", "10", "12", "20", "100"]
 ANNOTATOR_NAMES = ["alex", "bob", "carl", "dora", "eve"]
 
 FAMILIES = ["grid", "dyadic", "generic", "nested", "identical", "longoverlap", "touching", "negative",
-            "offset", "tiny"]
+            "offset", "tiny", "mixeddur"]
 
 
 # --------------------------------------------------------------------------- continua
@@ -65,6 +65,12 @@ def gen_segments(rng, family, k, horizon=None):
         for _ in range(k):
             s = base + rng.randrange(0, 8 * T) / 8.0
             segs.append((s, s + rng.randint(1, 40) / 8.0))
+    elif family == "mixeddur":
+        # short and long units starting close to each other: relative (length-normalised) distances are not
+        # monotone in the start time
+        for _ in range(k):
+            s = float(rng.randrange(0, 10))
+            segs.append((s, s + float(rng.choice([1, 1, 1, 5, 8, 25, 30]))))
     elif family == "tiny":
         for _ in range(k):
             s = rng.randrange(0, 64) / 64.0
